@@ -33,16 +33,17 @@ type runInfo struct {
 	step *ssa.Function
 
 	// cancellation machinery
-	withCancel *ssa.Call     // context.WithCancel(ctx) (nil if absent)
-	derivedCtx ssa.Value     // extract #0
-	cancelFn   ssa.Value     // extract #1
-	goInstr    *ssa.Go       // the watcher start
-	closure    *ssa.Function // watcher body
-	bindings   []ssa.Value
-	depth      int
-	flagCell   ssa.Value // *int32 cell accessed atomically
-	errCell    ssa.Value // *error cell written by the watcher
-	deferInstr *ssa.Defer
+	withCancel  *ssa.Call     // context.WithCancel(ctx) (nil if absent)
+	derivedCtx  ssa.Value     // extract #0
+	cancelFn    ssa.Value     // extract #1
+	goInstr     *ssa.Go       // the watcher start
+	closure     *ssa.Function // watcher body
+	bindings    []ssa.Value
+	depth       int
+	flagCell    ssa.Value // *int32 cell accessed atomically
+	errCell     ssa.Value // *error cell written by the watcher
+	deferInstr  *ssa.Defer
+	otherDefers []string
 }
 
 func deref(v ssa.Value) ssa.Value {
@@ -201,6 +202,10 @@ func analyseRun(cx *Ctx) (*runInfo, error) {
 			case *ssa.Defer:
 				if ri.cancelFn != nil && x.Call.Value == ri.cancelFn {
 					ri.deferInstr = x
+				} else if f := x.Call.StaticCallee(); f == nil || load.InModule(f) {
+					// a deferred function of the module can rewrite named results or the
+					// CPU after the loop: outside what the CFG automaton sees
+					ri.otherDefers = append(ri.otherDefers, cx.P.Pos(x.Pos()))
 				}
 			}
 		}
@@ -449,6 +454,9 @@ func (ri *runInfo) explore() *autoResult {
 	type node struct {
 		b *ssa.BasicBlock
 		q int
+	}
+	for _, d := range ri.otherDefers {
+		res.violations = append(res.violations, d+": a deferred function of the module runs after the loop (it can rewrite the result or the CPU): outside the event vocabulary of the CFG automaton (UNDECIDED)")
 	}
 	seen := map[node]bool{}
 	work := []node{{ri.run.Blocks[0], qInit}}
